@@ -269,6 +269,21 @@ def gen_wide(n_files, n_dirs=0, per_dir=0, extra=()):
     return D(*ch)
 
 
+def gen_many_dirs(n, file_every=0, top_files=0):
+    """n sibling folders in one directory (each of them becomes a pending walk job while the parent is
+    still being listed); a file in every `file_every`-th of them, a few files next to them."""
+    ch = [('d%05d' % i, D(('f.txt', F)) if (file_every and i % file_every == 0) else D()) for i in range(n)]
+    ch += [('top%d.txt' % i, F) for i in range(top_files)]
+    return D(*ch)
+
+
+def gen_dir_grid(outer, inner, leaf_file_every=0):
+    """`outer` folders each holding `inner` sub-folders: with a FIFO job queue all the outer folders are listed
+    before the first inner one is, so up to outer*inner directory jobs wait at the same moment."""
+    return D(*[('o%03d' % i, D(*[('i%03d' % j, D(('f', F)) if (leaf_file_every and (i * inner + j) % leaf_file_every == 0) else D())
+                                  for j in range(inner)])) for i in range(outer)])
+
+
 def gen_deep(levels, with_files=True):
     t = D(('leaf', F))
     for i in range(levels):
